@@ -67,6 +67,11 @@ Enter(cfg, s, d, now, inited, k, cflag) ==
                    ELSE Res("true", s, NoTimer)          \* rejected: in s without a timer
          ELSE Res("true", s, [due |-> now + dur, ev |-> cfg.tev[s]])
 
+(* start from a saved state (s, absolute expiry or none): no entry action, no chain, the   *)
+(* timer expires at the same absolute time as before                                      *)
+Restore(cfg, s, due) ==
+    Res("true", s, IF cfg.tev[s] = 0 \/ due < 0 THEN NoTimer ELSE [due |-> due, ev |-> cfg.tev[s]])
+
 (* one event() call; tm is the pending timer *)
 HandleC(cfg, st, tm, ev, d, now, inited, cflag) ==
     IF ~IsGoto(ev) /\ ~Known(cfg, ev) THEN Res("unknown", st, tm)
